@@ -33,6 +33,7 @@ type DPath struct {
 	EndKind string // return | panic | stop | loop
 	Ret     *ssa.Return
 	Target  *ssa.BasicBlock // for stop/loop
+	Inl     map[*ssa.Call]*DPath // helper calls replaced by the callee path taken
 }
 
 func (d *DPath) CondString() string {
@@ -52,13 +53,62 @@ type pathEnum struct {
 	limit int
 	out   []*DPath
 	err   error
+	depth int
+}
+
+// inlineHelper decides which callees the path enumeration looks into. It is set by the program
+// loader to "functions of the module that are not in the committed baseline list", i.e. helpers a
+// later change extracted from an analysed function; on the baseline tree nothing is inlined.
+var inlineHelper func(*ssa.Function) bool
+
+// inlState: substitutions accumulated along a path for the helper calls taken apart.
+type inlState struct {
+	sub map[ssa.Value]ssa.Value
+	inl map[*ssa.Call]*DPath
+	fns map[*ssa.Function]bool
+}
+
+func (x *inlState) clone() *inlState {
+	n := &inlState{sub: map[ssa.Value]ssa.Value{}, inl: map[*ssa.Call]*DPath{}, fns: map[*ssa.Function]bool{}}
+	if x != nil {
+		for k, v := range x.sub {
+			n.sub[k] = v
+		}
+		for k, v := range x.inl {
+			n.inl[k] = v
+		}
+		for k, v := range x.fns {
+			n.fns[k] = v
+		}
+	}
+	return n
+}
+
+func inlinable(sc *ssa.Function) bool {
+	if sc == nil || inlineHelper == nil || len(sc.Blocks) == 0 || !inlineHelper(sc) {
+		return false
+	}
+	for _, b := range sc.Blocks {
+		for _, s := range b.Succs {
+			if s.Dominates(b) {
+				return false // loops stay opaque
+			}
+		}
+		for _, ins := range b.Instrs {
+			switch ins.(type) {
+			case *ssa.Defer, *ssa.Go, *ssa.Panic, *ssa.RunDefers:
+				return false
+			}
+		}
+	}
+	return true
 }
 
 // enumPaths enumerates paths starting at block start (entered from prev, may
 // be nil). Paths end at Return, Panic, a block in stop, or a back edge.
 func enumPaths(start, prev *ssa.BasicBlock, stop map[*ssa.BasicBlock]bool, limit int) ([]*DPath, error) {
 	pe := &pathEnum{stop: stop, limit: limit}
-	pe.walk(start, prev, nil, nil, map[*ssa.Phi]ssa.Value{}, map[*ssa.BasicBlock]bool{})
+	pe.walk(start, prev, nil, nil, map[*ssa.Phi]ssa.Value{}, map[*ssa.BasicBlock]bool{}, nil)
 	return pe.out, pe.err
 }
 
@@ -70,26 +120,31 @@ func copyPhi(m map[*ssa.Phi]ssa.Value) map[*ssa.Phi]ssa.Value {
 	return n
 }
 
-func (pe *pathEnum) leaf(kind string, blocks []*ssa.BasicBlock, conds []PathCond, phi map[*ssa.Phi]ssa.Value, ret *ssa.Return, target *ssa.BasicBlock) {
+func (pe *pathEnum) leaf(kind string, blocks []*ssa.BasicBlock, conds []PathCond, phi map[*ssa.Phi]ssa.Value, ret *ssa.Return, target *ssa.BasicBlock, x *inlState) {
 	if len(pe.out) >= pe.limit {
 		pe.err = fmt.Errorf("more than %d paths", pe.limit)
 		return
 	}
 	env := newTermEnv()
 	env.Phi = phi
-	pe.out = append(pe.out, &DPath{Conds: append([]PathCond{}, conds...), Blocks: append([]*ssa.BasicBlock{}, blocks...), Env: env, EndKind: kind, Ret: ret, Target: target})
+	d := &DPath{Conds: append([]PathCond{}, conds...), Blocks: append([]*ssa.BasicBlock{}, blocks...), Env: env, EndKind: kind, Ret: ret, Target: target}
+	if x != nil {
+		env.Sub = x.sub
+		d.Inl = x.inl
+	}
+	pe.out = append(pe.out, d)
 }
 
-func (pe *pathEnum) walk(b, prev *ssa.BasicBlock, blocks []*ssa.BasicBlock, conds []PathCond, phi map[*ssa.Phi]ssa.Value, onPath map[*ssa.BasicBlock]bool) {
+func (pe *pathEnum) walk(b, prev *ssa.BasicBlock, blocks []*ssa.BasicBlock, conds []PathCond, phi map[*ssa.Phi]ssa.Value, onPath map[*ssa.BasicBlock]bool, x *inlState) {
 	if pe.err != nil {
 		return
 	}
 	if len(blocks) > 0 && pe.stop[b] {
-		pe.leaf("stop", blocks, conds, phi, nil, b)
+		pe.leaf("stop", blocks, conds, phi, nil, b, x)
 		return
 	}
 	if onPath[b] {
-		pe.leaf("loop", blocks, conds, phi, nil, b)
+		pe.leaf("loop", blocks, conds, phi, nil, b, x)
 		return
 	}
 	phi = copyPhi(phi)
@@ -120,23 +175,118 @@ func (pe *pathEnum) walk(b, prev *ssa.BasicBlock, blocks []*ssa.BasicBlock, cond
 	onPath[b] = true
 	defer func() { onPath[b] = false }()
 	blocks = append(blocks, b)
+	pe.inlineFrom(b, 0, blocks, conds, phi, onPath, x)
+}
+
+// inlineFrom takes apart the helper calls of block b from instruction i on (one alternative per
+// callee path), then continues with the block's terminator.
+func (pe *pathEnum) inlineFrom(b *ssa.BasicBlock, i int, blocks []*ssa.BasicBlock, conds []PathCond, phi map[*ssa.Phi]ssa.Value, onPath map[*ssa.BasicBlock]bool, x *inlState) {
+	if inlineHelper != nil && pe.depth < 3 {
+		for ; i < len(b.Instrs); i++ {
+			call, ok := b.Instrs[i].(*ssa.Call)
+			if !ok {
+				continue
+			}
+			sc := call.Call.StaticCallee()
+			if !inlinable(sc) || (x != nil && x.fns[sc]) || sc == b.Parent() {
+				continue
+			}
+			sub := &pathEnum{limit: 64, depth: pe.depth + 1}
+			sub.walk(sc.Blocks[0], nil, nil, nil, map[*ssa.Phi]ssa.Value{}, map[*ssa.BasicBlock]bool{}, nil)
+			if sub.err != nil {
+				continue // too many paths: the call stays opaque
+			}
+			for _, cp := range sub.out {
+				if cp.EndKind != "return" {
+					sub.err = fmt.Errorf("helper path does not return")
+				}
+			}
+			if sub.err != nil {
+				continue
+			}
+			for _, cp := range sub.out {
+				nx := x.clone()
+				nx.fns[sc] = true
+				nx.inl[call] = cp
+				for k, v := range cp.Env.Sub {
+					nx.sub[k] = v
+				}
+				for k, v := range cp.Inl {
+					nx.inl[k] = v
+				}
+				for pi, p := range sc.Params {
+					if pi < len(call.Call.Args) {
+						nx.sub[p] = call.Call.Args[pi]
+					}
+				}
+				nphi := copyPhi(phi)
+				for k, v := range cp.Env.Phi {
+					nphi[k] = v
+				}
+				// results
+				if cp.Ret != nil {
+					if len(cp.Ret.Results) == 1 {
+						nx.sub[call] = cp.Ret.Results[0]
+					} else if call.Referrers() != nil {
+						for _, r := range *call.Referrers() {
+							if ex, ok := r.(*ssa.Extract); ok && ex.Index < len(cp.Ret.Results) {
+								nx.sub[ex] = cp.Ret.Results[ex.Index]
+							}
+						}
+					}
+				}
+				// the callee's branch conditions, over the caller's values
+				env := newTermEnv()
+				env.Phi = nphi
+				env.Sub = nx.sub
+				nconds := conds[:len(conds):len(conds)]
+				dead := false
+				for _, pc := range cp.Conds {
+					if pc.At == nil {
+						continue
+					}
+					ct := env.Term(pc.At.Cond)
+					truth := cp.truthAt(pc.At)
+					if ct.K == "const" && ct.C != nil && ct.C.Kind() == constant.Bool {
+						if constant.BoolVal(ct.C) != truth {
+							dead = true
+						}
+						continue
+					}
+					for ct.K == "un" && ct.Op == token.NOT {
+						ct = ct.Args[0]
+						truth = !truth
+					}
+					nconds = append(nconds, PathCond{ct, truth, pc.At})
+				}
+				if dead {
+					continue
+				}
+				pe.inlineFrom(b, i+1, blocks, nconds, nphi, onPath, nx)
+			}
+			return
+		}
+	}
+	env := newTermEnv()
+	env.Phi = phi
+	if x != nil {
+		env.Sub = x.sub
+	}
 	last := b.Instrs[len(b.Instrs)-1]
-	switch x := last.(type) {
+	switch t := last.(type) {
 	case *ssa.Return:
-		pe.leaf("return", blocks, conds, phi, x, nil)
+		pe.leaf("return", blocks, conds, phi, t, nil, x)
 	case *ssa.Panic:
-		pe.leaf("panic", blocks, conds, phi, nil, nil)
+		pe.leaf("panic", blocks, conds, phi, nil, nil, x)
 	case *ssa.Jump:
-		pe.walk(b.Succs[0], b, blocks, conds, phi, onPath)
+		pe.walk(b.Succs[0], b, blocks, conds, phi, onPath, x)
 	case *ssa.If:
-		env := newTermEnv()
-		env.Phi = phi
-		ct := env.Term(x.Cond)
+		ct := env.Term(t.Cond)
 		if ct.K == "const" && ct.C != nil && ct.C.Kind() == constant.Bool {
 			if constant.BoolVal(ct.C) {
-				pe.walk(b.Succs[0], b, blocks, conds, phi, onPath)
+				pe.walk(b.Succs[0], b, blocks, conds, phi, onPath, x)
 			} else {
-				pe.walk(b.Succs[1], b, blocks, conds, phi, onPath)
+				pe.walk(b.Succs[1], b, blocks, conds, phi, onPath, x)
 			}
 			return
 		}
@@ -145,11 +295,22 @@ func (pe *pathEnum) walk(b, prev *ssa.BasicBlock, blocks []*ssa.BasicBlock, cond
 			ct = ct.Args[0]
 			neg = !neg
 		}
-		pe.walk(b.Succs[0], b, blocks, append(conds[:len(conds):len(conds)], PathCond{ct, !neg, x}), phi, onPath)
-		pe.walk(b.Succs[1], b, blocks, append(conds[:len(conds):len(conds)], PathCond{ct, neg, x}), phi, onPath)
+		pe.walk(b.Succs[0], b, blocks, append(conds[:len(conds):len(conds)], PathCond{ct, !neg, t}), phi, onPath, x)
+		pe.walk(b.Succs[1], b, blocks, append(conds[:len(conds):len(conds)], PathCond{ct, neg, t}), phi, onPath, x)
 	default:
 		pe.err = fmt.Errorf("unexpected block terminator %T", last)
 	}
+}
+
+// truthAt: which way the path went at a branch (true = first successor).
+func (d *DPath) truthAt(iff *ssa.If) bool {
+	b := iff.Block()
+	for i, pb := range d.Blocks {
+		if pb == b && i+1 < len(d.Blocks) {
+			return d.Blocks[i+1] == b.Succs[0]
+		}
+	}
+	return true
 }
 
 // baseTerms collects the non-constant leaves of the condition terms.
@@ -317,7 +478,27 @@ func rowsEqual(a, b []tableRow) (bool, string) {
 func pathInstrs(d *DPath) []ssa.Instruction {
 	var out []ssa.Instruction
 	for _, b := range d.Blocks {
-		out = append(out, b.Instrs...)
+		if len(d.Inl) == 0 {
+			out = append(out, b.Instrs...)
+			continue
+		}
+		for _, ins := range b.Instrs {
+			if call, ok := ins.(*ssa.Call); ok {
+				if cp, ok := d.Inl[call]; ok {
+					// the helper's own instructions on the path taken through it, in place of the call
+					sub := &DPath{Blocks: cp.Blocks, Inl: d.Inl}
+					for _, si := range pathInstrs(sub) {
+						switch si.(type) {
+						case *ssa.Return, *ssa.If, *ssa.Jump:
+						default:
+							out = append(out, si)
+						}
+					}
+					continue
+				}
+			}
+			out = append(out, ins)
+		}
 	}
 	return out
 }
